@@ -220,9 +220,29 @@ func URIParamsEq(
 	if err1 != ErrHdrOk && err1 != ErrHdrEOH {
 		return false, err1
 	}
+	if plst1.More() {
+		// more params than the temporary array can hold: parse again into
+		// a big enough one (else the extra params would not be compared)
+		n := plst1.N
+		plst1 = URIParamsLst{}
+		plst1.Init(make([]URIParam, n))
+		_, _, err1 = ParseAllURIParams(buf1, offs1, &plst1, flags)
+		if err1 != ErrHdrOk && err1 != ErrHdrEOH {
+			return false, err1
+		}
+	}
 	_, _, err2 := ParseAllURIParams(buf2, offs2, &plst2, flags)
 	if err2 != ErrHdrOk && err2 != ErrHdrEOH {
 		return false, err2
+	}
+	if plst2.More() {
+		n := plst2.N
+		plst2 = URIParamsLst{}
+		plst2.Init(make([]URIParam, n))
+		_, _, err2 = ParseAllURIParams(buf2, offs2, &plst2, flags)
+		if err2 != ErrHdrOk && err2 != ErrHdrEOH {
+			return false, err2
+		}
 	}
 	return URIParamsLstEq(&plst1, buf1, &plst2, buf2), ErrHdrOk
 }
